@@ -409,6 +409,169 @@ fn check_large(out: &mut Partial) {
     }
 }
 
+/// Brute-force reference: the first 20 of `members` by (secure first, XOR distance to target).
+fn brute(members: &[(Id20, SocketAddrV4)], target: &Id20) -> Vec<(Id20, SocketAddrV4)> {
+    let mut want: Vec<((u8, Id20), (Id20, SocketAddrV4))> = members.iter().map(|m| (key(&N { id: m.0, addr: m.1 }, target), *m)).collect();
+    want.sort();
+    want.truncate(20);
+    want.into_iter().map(|w| w.1).collect()
+}
+
+/// Members that went quiet: the first `k` nodes are added at one instant, the rest 16 minutes
+/// later, so the early ones are stale (not heard from for 15 minutes) but still members when the
+/// table is asked. The answer is still the first 20 of the table's nodes.
+fn check_table_with_stale_members(out: &mut Partial) {
+    use crate::sim::{local_set_clock, MIN, SEC, T0};
+    let own: Id20 = [0x01; 20];
+    for n in [6usize, 20, 22, 26] {
+        let u = big_universe(n);
+        let targets: Vec<Id20> = vec![u[0].id, u[n - 1].id, [0x77; 20], own];
+        for k in [1usize, n / 2, n - 1] {
+            local_set_clock(T0);
+            let mut t = RoutingTable::new(own.into());
+            for i in 0..k {
+                t.add(u[i].node());
+            }
+            local_set_clock(T0 + 16 * MIN);
+            for i in k..n {
+                t.add(u[i].node());
+            }
+            local_set_clock(T0 + 16 * MIN + SEC);
+            let members: Vec<(Id20, SocketAddrV4)> = t.nodes().map(|n| ident(&n)).collect();
+            for target in &targets {
+                out.add("evaluations", 1);
+                out.add("distinct_nontrivial", 1);
+                out.add("tables_with_stale_members", 1);
+                let got: Vec<(Id20, SocketAddrV4)> = match quiet(|| catch(|| t.closest((*target).into()))) {
+                    Ok(c) => c.iter().map(ident).collect(),
+                    Err(p) => {
+                        out.violation("table/closest-panic", format!("closest() panicked: {p}"), json!({"kind": "stale", "n": n, "k": k}));
+                        continue;
+                    }
+                };
+                let want = brute(&members, target);
+                if got != want {
+                    let missing = want.iter().filter(|w| !got.contains(w)).count();
+                    out.violation(
+                        "table/closest-not-first-20/with-stale-members",
+                        format!("a table of {} members, {k} of them not heard from for 16 minutes (still members): closest() returned {} nodes, {missing} of the first 20 are missing", members.len(), got.len()),
+                        json!({"kind": "stale", "n": n, "k": k, "target": hex(target)}),
+                    );
+                }
+            }
+            local_set_clock(T0);
+        }
+    }
+}
+
+/// The node lists a *server* puts in its answers (find_node, get_peers, get, get_signed_peers),
+/// driven through the real decoder -> Server::handle_request -> encoder with a main table and a
+/// signed-peers table of every size relation.
+fn check_server_responses(out: &mut Partial) {
+    use crate::krpc::{self, Krpc};
+    use dht::verif::{decode, encode, MessageType, Server, WireMessage};
+    let own: Id20 = [0x01; 20];
+    let u = big_universe(40);
+    let from = SocketAddrV4::new(Ipv4Addr::new(44, 4, 4, 4), 4444);
+    let rid: Id20 = [0xA7; 20];
+    for a in [0usize, 5, 19, 20, 21, 30] {
+        for b in [0usize, 1, 6, 19, 20, 25] {
+            // the signed-peers table holds `b` nodes: the first b of the main table's, or a window
+            // that lies partly outside it
+            for offset in [0usize, a.saturating_sub(3)] {
+                if offset + b > u.len() || (offset > 0 && b == 0) {
+                    continue;
+                }
+                let mut main = RoutingTable::new(own.into());
+                for n in &u[..a] {
+                    main.add(n.node());
+                }
+                let mut signed = RoutingTable::new(own.into());
+                for n in &u[offset..offset + b] {
+                    signed.add(n.node());
+                }
+                let m_members: Vec<(Id20, SocketAddrV4)> = main.nodes().map(|n| ident(&n)).collect();
+                let s_members: Vec<(Id20, SocketAddrV4)> = signed.nodes().map(|n| ident(&n)).collect();
+                let mut union = m_members.clone();
+                for x in &s_members {
+                    if !union.contains(x) {
+                        union.push(*x);
+                    }
+                }
+                let mut server = Server::new(dht::ServerSettings::default());
+                for target in [u[2].id, u[33].id, [0x77u8; 20], own] {
+                    for kind in 0..4usize {
+                        let bytes = match kind {
+                            0 => krpc::q_find_node(&[0, 0, 0, 1], &rid, &target, None),
+                            1 => krpc::q_get_peers(&[0, 0, 0, 1], &rid, &target, false),
+                            2 => krpc::q_get(&[0, 0, 0, 1], &rid, &target, None),
+                            _ => krpc::q_get_peers(&[0, 0, 0, 1], &rid, &target, true),
+                        };
+                        let kname = ["find_node", "get_peers", "get", "get_signed_peers"][kind];
+                        out.add("evaluations", 1);
+                        out.add("distinct_nontrivial", 1);
+                        out.add("server_responses", 1);
+                        let replay = json!({"kind": "server", "a": a, "b": b, "offset": offset, "target": hex(&target), "q": kname});
+                        let got = quiet(|| {
+                            catch(|| {
+                                let m = decode(&bytes).expect("harness query decodes");
+                                let MessageType::Request(r) = m.message_type else { unreachable!() };
+                                let reply = server.handle_request(&main, &signed, from, r).expect("a reply");
+                                let w = WireMessage { transaction_id: 1, version: None, requester_ip: None, message_type: reply, read_only: false };
+                                Krpc::parse(&encode(&w).expect("encode")).and_then(|k| k.res_nodes()).unwrap_or_default()
+                            })
+                        });
+                        let got = match got {
+                            Ok(g) => g,
+                            Err(p) => {
+                                out.violation(format!("server-response/panic/{kname}"), format!("answering {kname} panicked: {p}"), replay);
+                                continue;
+                            }
+                        };
+                        let mut dd = got.clone();
+                        dd.sort();
+                        dd.dedup();
+                        let ctx = format!("{kname} answered by a server whose main table has {} nodes and whose signed-peers table has {} ({} of them also in the main table)", m_members.len(), s_members.len(), s_members.iter().filter(|x| m_members.contains(x)).count());
+                        if got.len() > 20 {
+                            out.violation(format!("server-response/more-than-20/{kname}"), format!("{ctx}: {} nodes in the answer", got.len()), replay.clone());
+                        }
+                        if dd.len() != got.len() {
+                            out.violation(format!("server-response/duplicates/{kname}"), format!("{ctx}: the answer lists {} nodes, only {} distinct", got.len(), dd.len()), replay.clone());
+                        }
+                        if got.iter().any(|g| !union.contains(g)) {
+                            out.violation(format!("server-response/foreign/{kname}"), format!("{ctx}: the answer lists a node that is in neither table"), replay.clone());
+                        }
+                        match kind {
+                            0 => {
+                                // signed-peers supporters first, topped up to 20 from the main table
+                                let first = brute(&s_members, &target);
+                                let rest_pool: Vec<(Id20, SocketAddrV4)> = m_members.iter().filter(|x| !first.contains(x)).cloned().collect();
+                                let mut want = first.clone();
+                                want.extend(brute(&rest_pool, &target).into_iter().take(20 - first.len()));
+                                if dd.len() != want.len().min(20) && dd.len() == got.len() && got.len() <= 20 {
+                                    out.violation(format!("server-response/not-full/{kname}"), format!("{ctx}: the answer lists {} nodes although the tables hold {} distinct ones", got.len(), union.len()), replay.clone());
+                                } else if got != want && dd.len() == got.len() && got.len() <= 20 {
+                                    out.violation(format!("server-response/not-the-closest/{kname}"), format!("{ctx}: the answer is not the signed-peers table's closest followed by the main table's closest"), replay.clone());
+                                }
+                            }
+                            1 | 2 => {
+                                if got != brute(&m_members, &target) {
+                                    out.violation(format!("server-response/not-the-closest/{kname}"), format!("{ctx}: the answer is not the first 20 of the main table"), replay.clone());
+                                }
+                            }
+                            _ => {
+                                if got != brute(&s_members, &target) {
+                                    out.violation(format!("server-response/not-the-closest/{kname}"), format!("{ctx}: the answer is not the first 20 of the signed-peers table"), replay.clone());
+                                }
+                            }
+                        }
+                    }
+                }
+            }
+        }
+    }
+}
+
 fn run(tier: Tier, _s: usize, _n: usize, _seed: u64) -> Partial {
     let chunks = super::cores();
     let (u, targets) = universe();
@@ -440,6 +603,12 @@ fn run(tier: Tier, _s: usize, _n: usize, _seed: u64) -> Partial {
         }
         if chunk == 1 % chunks {
             check_large(&mut out);
+        }
+        if chunk == 2 % chunks {
+            check_table_with_stale_members(&mut out);
+        }
+        if chunk == 3 % chunks {
+            check_server_responses(&mut out);
         }
         out
     });
@@ -491,6 +660,8 @@ fn replay(v: &Value) -> Result<Option<Violation>, String> {
             }
         }
         Some("take_until_secure") => check_truncation(&mut out),
+        Some("stale") => check_table_with_stale_members(&mut out),
+        Some("server") => check_server_responses(&mut out),
         _ => return Err("kind".into()),
     }
     Ok(out.violations.into_iter().next())
